@@ -181,9 +181,9 @@ func C06(c *vf.Ctx) {
 			return probeFinding("C06", v, ts, res)
 		},
 		design: &designCheck{cfg: sys.Config{Small: false, Soft: true, Threads: []string{"c1"}}, kinds: []string{"start", "hstep", "relw", "deliver", "cancel"},
-			maxRPC: 2, maxStims: 5, invs: "TypeOK StreamInvs OneWrite"},
+			maxRPC: 2, maxStims: 5, invs: "TypeOK StreamInvs OneWrite NextAccepted"},
 		designT: &designCheck{cfg: sys.Config{Small: false, Soft: true, Threads: []string{"c1"}}, kinds: []string{"start", "hstep", "relw", "deliver", "cancel"},
-			maxRPC: 2, maxStims: 5, invs: "TypeOK StreamInvs OneWrite"},
+			maxRPC: 2, maxStims: 5, invs: "TypeOK StreamInvs OneWrite NextAccepted"},
 	}
 	runSysFamily(c, fam, nT, nR)
 	c.Cov["rule"] = "prefixes: realisable stimulus sequences generated by TLC simulation of System.tla (Gen) and seeded random ones over {Invoke, NewStream, stream methods, handler actions, write releases, deliveries, soft/hard cancel, armed conn.created point}; tail decided on the real state: close every handle, let the handler return, let the transport flow, then a probe unary RPC. A run is distinct by its recorded lines; every run is validated against SystemTrace.tla."
@@ -373,9 +373,9 @@ func C04(c *vf.Ctx) {
 			return out
 		},
 		design: &designCheck{cfg: sys.Config{Small: true, Soft: true, Threads: []string{"c1"}}, kinds: []string{"start", "relw", "deliver", "cancel"},
-			maxRPC: 1, maxStims: 5, invs: "TypeOK StreamInvs OneWrite CloseOnce"},
+			maxRPC: 1, maxStims: 5, invs: "TypeOK StreamInvs OneWrite CloseOnce CancelReleases"},
 		designT: &designCheck{cfg: sys.Config{Small: true, Soft: true, Threads: []string{"c1", "c2"}}, kinds: []string{"start", "relw", "deliver", "cancel"},
-			maxRPC: 1, maxStims: 6, invs: "TypeOK StreamInvs OneWrite CloseOnce"},
+			maxRPC: 1, maxStims: 6, invs: "TypeOK StreamInvs OneWrite CloseOnce CancelReleases"},
 	}
 	runSysFamily(c, fam, nT, nR)
 	c.Cov["rule"] = "prefixes (TLC-generated realisable and seeded random) build an RPC with calls in flight over a stalled or flowing transport; the tail puts more calls in flight, cancels the RPC's context, judges every call of that RPC at the next quiescence (no cooperation of peer or transport), makes a later call, then lets the cancellation reach the peer and probes the connection. Both cancel modes, small/large writer buffer, manual flush."
@@ -528,9 +528,9 @@ func C05(c *vf.Ctx) {
 		},
 		own: map[string]bool{"C05": true},
 		design: &designCheck{cfg: sys.Config{Small: true, Threads: []string{"c1"}}, kinds: []string{"start", "hstep", "relw", "deliver", "fault"},
-			maxRPC: 1, maxStims: 5, invs: "TypeOK StreamInvs OneWrite CloseOnce"},
+			maxRPC: 1, maxStims: 5, invs: "TypeOK StreamInvs OneWrite CloseOnce FaultContained"},
 		designT: &designCheck{cfg: sys.Config{Small: true, Threads: []string{"c1"}}, kinds: []string{"start", "hstep", "relw", "deliver", "fault"},
-			maxRPC: 1, maxStims: 7, invs: "TypeOK StreamInvs OneWrite CloseOnce"},
+			maxRPC: 1, maxStims: 7, invs: "TypeOK StreamInvs OneWrite CloseOnce FaultContained"},
 	}
 	// delivery findings after a fault are C05's ("whatever was delivered before the failure is still a correct prefix")
 	fam.own["C01"], fam.own["C02"] = true, true
@@ -676,14 +676,15 @@ func C12(c *vf.Ctx) {
 			return out
 		},
 		design: &designCheck{cfg: sys.Config{Small: true, Threads: []string{"c1"}}, kinds: []string{"start", "hstep", "relw", "deliver", "close", "cancelsrv"},
-			maxRPC: 1, maxStims: 5, invs: "TypeOK StreamInvs OneWrite CloseOnce"},
+			maxRPC: 1, maxStims: 5, invs: "TypeOK StreamInvs OneWrite CloseOnce CloseReleases"},
 		designT: &designCheck{cfg: sys.Config{Small: true, Threads: []string{"c1", "c2"}}, kinds: []string{"start", "hstep", "relw", "deliver", "close", "cancelsrv"},
-			maxRPC: 1, maxStims: 6, invs: "TypeOK StreamInvs OneWrite CloseOnce"},
+			maxRPC: 1, maxStims: 6, invs: "TypeOK StreamInvs OneWrite CloseOnce CloseReleases"},
 	}
 	runSysFamily(c, fam, nT, nR)
 	serveTeardown(c)
 	serveModel(c)
 	// closing must also complete when the peer misbehaved: every Hostile.tla frame sequence, then end of stream
+	invokeOvertakesRegistration(c)
 	hostileManagerWith(c, func(frames []hostileFrame, where string) {
 		c.Violation("teardown does not complete after hostile peer input: "+where, map[string]any{"frames": frames, "bytes": hostileBytes(frames)})
 	})
